@@ -197,6 +197,9 @@ def run(scn, seed, line_p=0.05, stick=0.5, decisions=None, rpc_timeout=2):
     final = coq_list(['(%s, %s)' % (coq_nat(c), csnap(conn, ch)) for c, ch in sorted(snaps.items())])
     inv = rt.inventory()
     conn_state = conn.current_state
+    crashes = [(t.name, repr(t.exc), getattr(t, 'tb', '')[-600:]) for t in rt.tasks
+               if t.kind != 'app' and t.exc is not None]
+    states = [(t.name, t.kind, t.state, t.wake) for t in rt.tasks if not t.done]
     rt.teardown()
     wire = [(ch, fr) for (_, ch, fr, _) in br.ledger_in[mark:]]
     events_coq = coq_list([
@@ -215,6 +218,7 @@ def run(scn, seed, line_p=0.05, stick=0.5, decisions=None, rpc_timeout=2):
                 wire=[(ch, fr.name) for ch, fr in wire], hang=hang,
                 decisions=list(rt.decisions), violations=list(br.violations),
                 other=st.get('other', []), steps=rt.steps, inventory=inv,
+                thread_crashes=crashes, live_tasks=states,
                 log=rt.log[-40:])
     return obs, info
 
